@@ -491,16 +491,41 @@ type BFSResult struct {
 // applying one more operation (real objects cannot be cloned). When two different histories
 // reach the same Key the optional same() callback can compare them (differential oracle).
 func (r *Run) BFS(cfgName string, newSys func() Sys, maxDepth int) BFSResult {
+	return r.BFSFrom(cfgName, newSys, nil, maxDepth)
+}
+
+// BFSFrom is BFS started from several NON-INITIAL states: every history in starts (executed with
+// the oracle on; a failing start history is reported as a violation) is a root of the search, in
+// addition to the empty history when starts is empty. maxDepth counts operations after a root.
+func (r *Run) BFSFrom(cfgName string, newSys func() Sys, starts [][]string, maxDepth int) BFSResult {
 	type node struct{ hist []string }
 	var res BFSResult
 	seen := map[string]struct{}{}
-	{
+	var frontier []node
+	if len(starts) == 0 {
+		starts = [][]string{nil}
+	}
+	for _, st := range starts {
 		s := newSys()
-		seen[s.Key()] = struct{}{}
+		var fail *Fail
+		for i, op := range st {
+			if f := s.Apply(op, true); f != nil {
+				fail = f
+				r.Violation(f.Signature, f.Message, map[string]any{"config": cfgName, "ops": st[:i+1]})
+				break
+			}
+			res.Transitions++
+		}
+		if fail == nil {
+			k := s.Key()
+			if _, ok := seen[k]; !ok {
+				seen[k] = struct{}{}
+				res.States++
+				frontier = append(frontier, node{append([]string{}, st...)})
+			}
+		}
 		s.Close()
 	}
-	res.States = 1
-	frontier := []node{{}}
 	for depth := 1; depth <= maxDepth && len(frontier) > 0; depth++ {
 		type out struct {
 			op   string
